@@ -208,7 +208,19 @@ fn mode_layout(args: &Args) {
                 violations: &mut v,
                 generate_every: gen_every,
             };
-            monitors::run_layout(h, &mut run)
+            // the monitors only call public accessors with identifiers the builder handed out
+            match std::panic::catch_unwind(std::panic::AssertUnwindSafe(|| monitors::run_layout(h, &mut run))) {
+                Ok(f) => f,
+                Err(p) => {
+                    run.violations.push(Violation::new(
+                        "C13",
+                        "accessor-panicked",
+                        format!("a public accessor panicked on data the builder had issued: {}", sut::panic_text(p)),
+                        h,
+                    ));
+                    monitors::HistFlags::default()
+                }
+            }
         };
         let d = h.digest();
         if flags.variants >= 2 && flags.gap_filled {
@@ -321,7 +333,18 @@ fn mode_builder(args: &Args) {
     let mut evaluations = 0;
     let mut run_one = |h: &History, stats: &mut Stats, distinct: &mut Distinct, samples: &mut Vec<String>| {
         let mut v = Vec::new();
-        let flags = monitors::run_builder_both(h, stats, &mut v);
+        let flags = match std::panic::catch_unwind(std::panic::AssertUnwindSafe(|| monitors::run_builder_both(h, stats, &mut v))) {
+            Ok(f) => f,
+            Err(p) => {
+                v.push(Violation::new(
+                    "C12",
+                    "accessor-panicked",
+                    format!("a public accessor panicked on data the builder had issued: {}", sut::panic_text(p)),
+                    h,
+                ));
+                monitors::BuilderFlags::default()
+            }
+        };
         if flags.rejected > 0 && flags.variants >= 1 {
             distinct.add("C12", h.digest());
             if samples.len() < 6 && (h.digest() % 89 == 0 || samples.len() < 2) {
